@@ -5,6 +5,7 @@ import (
 	"reflect"
 
 	"github.com/ChrisTrenkamp/xsel/grammar"
+	"github.com/pkg/errors"
 )
 
 // Unmarshal maps a XPath result to a struct or slice.
@@ -20,7 +21,14 @@ import (
 // structs.  It cannot Unmarshal multidimensional slices.
 //
 // Arrays, maps, and channels are not supported.
-func Unmarshal(result Result, value any, settings ...ContextApply) error {
+func Unmarshal(result Result, value any, settings ...ContextApply) (err error) {
+	// Like Exec, turn a panic (a nil Cursor in the NodeSet, for instance) into an error.
+	defer func() {
+		if r := recover(); r != nil {
+			err = errors.Wrapf(fmt.Errorf("xpath unmarshal panic"), "%s", r)
+		}
+	}()
+
 	return unmarshal(result, value, settings...)
 }
 
